@@ -376,6 +376,21 @@ def run_generated_case(scn: dict, sched: dict) -> dict:
     return tr
 
 
+def two_source_agent(i: int) -> dict:
+    """An agent that asks mosaik for data of TWO source simulators in one asynchronous get_data call (uncached
+    when the cache is off): the sources' answers to that call are requests of their own."""
+    n_src = 2 + i % 2
+    srcs = [sim(f"A{j}", "time-based", {}, {"o": "persistent"}) for j in range(n_src)]
+    agent = sim("B", "time-based", {f"i{j}": "nontrigger" for j in range(n_src)}, {},
+                agent={"targets": [], "p_set": 0.0, "get": [[f"A{j}.e0", "o"] for j in range(n_src)], "p_get": 1.0})
+    watcher = sim("C", "time-based", {"i": "nontrigger"}, {})
+    conns = [{"src": f"A{j}", "se": "e0", "sa": "o", "dst": "B", "de": "e0", "da": f"i{j}", "async": True}
+             for j in range(n_src)]
+    conns.append({"src": "A0", "se": "e0", "sa": "o", "dst": "C", "de": "e0", "da": "i"})
+    return {"sims": srcs + [agent, watcher], "conns": conns, "until": 3,
+            "config": {"cache": bool(i % 4 >= 2), "lazy": True}}
+
+
 def run_generated(job: dict, res: dict, viol) -> None:
     """Engine A part: generated scenarios, every (simulator, request index < cap), early and late failure,
     rotating exception class and schedule policy."""
@@ -386,8 +401,12 @@ def run_generated(job: dict, res: dict, viol) -> None:
     seed = job["seed"]
     for i in range(w, job["gen_scenarios"], W):
         pname = job["gen_profiles"][i % len(job["gen_profiles"])]
-        scn = gen_scenario(H(seed, "c14gen", pname, i) % (1 << 48), PROFILES[pname])
-        scn["until"] = min(scn["until"], 4)
+        if i % 8 == 5:
+            scn = two_source_agent(i // 8)
+            C["gen_scenarios_agent_asking_several_sources"] += 1
+        else:
+            scn = gen_scenario(H(seed, "c14gen", pname, i) % (1 << 48), PROFILES[pname])
+            scn["until"] = min(scn["until"], 4)
         base = run_generated_case(scn, {"policy": "random", "seed": i})
         res["evaluations"] += 1
         if base["outcome"]["kind"] != "ok":
@@ -624,7 +643,7 @@ def evidence(m, tier, seed):
                 "coroutine, no error reported to the loop's exception handler, no request "
                 "after finalize; distinct_nontrivial = distinct (scenario, simulator, request index, kind) whose "
                 "fault actually fired.  Second part (counters gen_*): generated scenarios (6 profiles, with groups, weak and "
-                "time-shifted connections, async agents) in-process under the controlled loop: a fault-free run counts the "
+                "time-shifted connections, async agents; every eighth one a fixed family with an agent that asks two or three sources in one asynchronous get_data call, cache on and off) in-process under the controlled loop: a fault-free run counts the "
                 "requests; then every (simulator, request index < cap) fails once at the beginning of the request and once "
                 "when its reply is due (other simulators may have started or finished requests in between), with a rotating "
                 "exception class and schedule policy; expected: run() raises (no exact deadlock/livelock), survivors "
